@@ -1134,6 +1134,165 @@ def rule_r4(chk, prog):
               nontrivial=True)
 
 
+# -------------------------------------------------------------------- R10
+def _regex_admits(pattern, chars):
+    """May a match of ``pattern`` contain one of ``chars``?"""
+    try:
+        import re._parser as sp
+        import re._constants as sc
+    except ImportError:  # pragma: no cover
+        import sre_parse as sp
+        import sre_constants as sc
+    codes = {ord(c) for c in chars}
+
+    def rec(items):
+        for op, av in items:
+            name = str(op)
+            if name == 'LITERAL':
+                if av in codes:
+                    return True
+            elif name in ('NOT_LITERAL', 'ANY'):
+                return True
+            elif name == 'IN':
+                neg = any(str(o) == 'NEGATE' for o, _ in av)
+                if neg:
+                    return True
+                for o, a in av:
+                    if str(o) == 'LITERAL' and a in codes:
+                        return True
+                    if str(o) == 'RANGE' and any(a[0] <= c <= a[1]
+                                                 for c in codes):
+                        return True
+                    if str(o) == 'CATEGORY' and 'DIGIT' not in str(a):
+                        return True
+            elif name in ('MAX_REPEAT', 'MIN_REPEAT', 'POSSESSIVE_REPEAT'):
+                if rec(av[2]):
+                    return True
+            elif name == 'SUBPATTERN':
+                if rec(av[3]):
+                    return True
+            elif name == 'BRANCH':
+                if any(rec(b) for b in av[1]):
+                    return True
+            elif name in ('AT', ):
+                continue
+            else:
+                return True  # unknown construct: assume it may
+        return False
+
+    return rec(list(sp.parse(pattern)))
+
+
+def rule_r10(chk, prog):
+    chk.rule('C03.R10', 'ArithmeticSimplifyConstant strictly decreases a '
+             'well-founded measure: the constants it reads are non-negative '
+             '(sign analysis of get_arith_const and of the lexeme patterns) '
+             'and an integer constant is replaced by a floor division of '
+             'itself by a constant >= 2')
+    sm = prog.mod('smtlib')
+    g = sm.func('get_arith_const')
+    where = 'smtlib.get_arith_const'
+    # lexeme patterns of the constants: no sign
+    n = 0
+    for fn in ('is_arith_const', 'is_int_const'):
+        ff = sm.func(fn)
+        for c in ast.walk(ff):
+            if isinstance(c, ast.Call) and (call_name(c) or '').startswith(
+                    're.') and c.args and isinstance(
+                        c.args[0], ast.Constant) and isinstance(
+                            c.args[0].value, str):
+                n += 1
+                chk.check('C03.R10', f'smtlib.{fn}', c,
+                          not _regex_admits(c.args[0].value, '-+'),
+                          f'the pattern {c.args[0].value!r} admits a sign: '
+                          'the constant mutators assume non-negative values',
+                          loc=sm.loc(c), nontrivial=True)
+    chk.floor('C03.R10', 'constant lexeme patterns', n, 2)
+    defs = single_defs(g)
+
+    def sign(e, depth=0):
+        if isinstance(e, ast.Constant) and isinstance(
+                e.value, (int, float)) and not isinstance(e.value, bool):
+            return 'nonneg' if e.value >= 0 else 'neg'
+        if isinstance(e, ast.Call):
+            nm = call_name(e) or ''
+            if nm in ('float', 'int', 'abs', 'len', 'fractions.Fraction',
+                      'Fraction', 'decimal.Decimal') and e.args:
+                a = e.args[0]
+                if nm in ('abs', 'len'):
+                    return 'nonneg'
+                if isinstance(a, ast.Attribute) and a.attr == 'data':
+                    return 'nonneg'  # a lexeme admitted by the patterns
+                return sign(a, depth + 1)
+            if nm == g.name:
+                return 'nonneg'  # induction over the node
+            return 'unknown'
+        if isinstance(e, ast.Name) and depth < 4 and e.id in defs:
+            return sign(defs[e.id], depth + 1)
+        if isinstance(e, ast.BinOp):
+            a, b = sign(e.left, depth + 1), sign(e.right, depth + 1)
+            if 'unknown' in (a, b):
+                return 'unknown'
+            if isinstance(e.op, (ast.Add, ast.Mult, ast.Div, ast.FloorDiv,
+                                 ast.Pow, ast.Mod)):
+                return 'nonneg' if (a, b) == ('nonneg', 'nonneg') else 'neg'
+            return 'neg'  # subtraction etc.
+        if isinstance(e, ast.UnaryOp):
+            if isinstance(e.op, ast.USub):
+                return 'neg'
+            if isinstance(e.op, ast.UAdd):
+                return sign(e.operand, depth + 1)
+        if isinstance(e, ast.IfExp):
+            a, b = sign(e.body, depth + 1), sign(e.orelse, depth + 1)
+            if 'unknown' in (a, b):
+                return 'unknown'
+            return 'nonneg' if (a, b) == ('nonneg', 'nonneg') else 'neg'
+        return 'unknown'
+
+    rets = [r for r in walk_no_nested(g) if isinstance(r, ast.Return)
+            and r.value is not None]
+    chk.floor('C03.R10', 'return values of get_arith_const', len(rets), 2)
+    for r in rets:
+        sg = sign(r.value)
+        if sg == 'unknown':
+            raise AnalysisError(f'C03.R10: {sm.loc(r)}: sign of '
+                                f'"{unparse(r.value)}" not decided')
+        chk.check('C03.R10', where, r, sg == 'nonneg',
+                  f'"{unparse(r.value)}" can be negative: for a negative '
+                  'integer i, i // 2 and i // 10 round towards minus '
+                  'infinity (-1 // 2 == -1), so the constant is replaced by '
+                  'itself and accepted again and again',
+                  loc=sm.loc(r), nontrivial=True)
+    # the integer proposals
+    am = prog.mod('mutators_arithmetic')
+    mf = am.func('ArithmeticSimplifyConstant.mutations')
+    mdefs = single_defs(mf)
+    ints = {v for v, d in mdefs.items() if isinstance(d, ast.Call)
+            and call_name(d) == 'int'}
+    ni = 0
+    for c in ast.walk(mf):
+        if not (isinstance(c, ast.Call) and call_name(c) == 'str'
+                and c.args):
+            continue
+        a = c.args[0]
+        names = {x.id for x in ast.walk(a) if isinstance(x, ast.Name)}
+        if not (names & ints) or isinstance(a, ast.Name):
+            continue
+        ni += 1
+        ok = isinstance(a, ast.BinOp) and isinstance(
+            a.op, ast.FloorDiv) and isinstance(
+                a.left, ast.Name) and a.left.id in ints and isinstance(
+                    a.right, ast.Constant) and isinstance(
+                        a.right.value, int) and a.right.value >= 2
+        chk.check('C03.R10', 'mutators_arithmetic.ArithmeticSimplify'
+                  'Constant.mutations', c, ok,
+                  f'the proposed integer "{unparse(a)}" is not a floor '
+                  'division of the constant by a constant >= 2: it is not '
+                  'strictly smaller for every admitted value',
+                  loc=am.loc(c), nontrivial=True)
+    chk.floor('C03.R10', 'integer proposals', ni, 2)
+
+
 # --------------------------------------------------------------------- R5
 def rule_r5(chk, prog):
     chk.rule('C03.R5', 'fixed-point loops of both strategies are left on '
@@ -1516,6 +1675,7 @@ def run(tier):
     chk.guard(rule_r4, chk, prog)
     chk.guard(rule_r5, chk, prog)
     chk.guard(rule_r8, chk, prog)
+    chk.guard(rule_r10, chk, prog)
     from . import c16
     sub16 = Check('C16', 'other', tier, [], [])
     chk.guard(c16.rule_r8, sub16, prog)
